@@ -76,6 +76,10 @@ func normRecv(fn, construct string) string {
 }
 
 func (r *Report) Add(rule, fn, construct, pos string, st Status, detail string, nontrivial bool) *Oblig {
+	if (st == Violated || st == Undecided) && newCodeFuncs[fn] && (strings.HasPrefix(rule, "E15.") || strings.HasPrefix(rule, "E16.")) {
+		st = OK
+		detail = "pattern rule not applied: this function was added after the review and is reachable only from such additions (no reviewed idiom to deviate from); it would have said: " + detail
+	}
 	construct = normRecv(fn, construct)
 	key := rule + "|" + fn + "|" + construct
 	r.keySeen[key]++
